@@ -33,11 +33,15 @@ Theorem C02_no_phantom_example : Forall op_wf good_ops /\ exists s outs, run (in
   /\ map t_id (c_tasks (s_core s)) = [(1, 4); (1, 5); (1, 6); (2, 0)].
 Proof. exact (conj good_ops_wf good_ops_run). Qed.
 
-(** [op_wf] cannot be dropped (finding F26): a submit with three explicit ids and two entries is
-    accepted; the job shows three waiting tasks, the scheduler knows two. *)
-Theorem C02_ids_longer_than_entries_refuted : exists s outs j, run (init_sys 0 2) bad_ops = Ok (s, outs)
-  /\ find_job (h_jobs (s_hq s)) 1 = Some j /\ jt_find (j_tasks j) 6 = Some JW
-  /\ ~ In (1, 6) (map t_id (c_tasks (s_core s))).
+(** Finding F26 (fixed): a submit with three explicit ids and two entries was accepted by
+    [handle_submit_array] - the job shows three waiting tasks, the scheduler knows two; since the
+    repair the request is refused before it gets there, state untouched.  (The hypothesis [op_wf]
+    of the theorems above is therefore true of every ACCEPTED submit.) *)
+Theorem C02_ids_longer_than_entries_refuted :
+  (exists s outs j, handle_submit_array (init_sys 0 2, []) None [4; 5; 6] (Some 2) BijWitness.rq1 0%Z CUnl false None = Ok (s, outs)
+     /\ find_job (h_jobs (s_hq s)) 1 = Some j /\ jt_find (j_tasks j) 6 = Some JW
+     /\ ~ In (1, 6) (map t_id (c_tasks (s_core s))))
+  /\ run (init_sys 0 2) bad_ops = Ok (init_sys 0 2, [OResp (RSubmitErr 6 0)]).
 Proof. exact bad_ops_phantom. Qed.
 
 (** The server-side worker bookkeeping agrees with the task states in EVERY reachable state: every
